@@ -109,13 +109,13 @@ theorem writeDict_hdf5_fresh (c : Codec) (fs : FS) (t : Target) (ov : Bool) (d :
     writeDict c fs t .hdf5 ov d = (FS.put (cleared fs t ov) t (.h5 tree), none) := by
   have hl := cleared_lookup fs t ov h
   unfold cleared at hl
-  simp only [writeDict, cleared]
+  simp only [writeDict, writeDictWith, cleared]
   simp [hl, he]
 
 theorem writeDict_pkl_fresh (c : Codec) (fs : FS) (t : Target) (ov : Bool) (d : Val)
     (h : t.isPath = true ∨ ov = true ∨ FS.lookup fs t = none) :
     writeDict c fs t .pkl ov d = (FS.put (cleared fs t ov) t (.pkl [dictAfter .pkl d]), none) := by
-  simp only [writeDict, cleared]
+  simp only [writeDict, writeDictWith, cleared]
   by_cases hp : t.isPath = true
   · simp [hp]
   · rcases h with h | h
